@@ -5,7 +5,7 @@ From GVL Require Import NList Wire.
 From GV_pipeline Require Import Model Proofs.
 Open Scope N_scope.
 
-Ltac prj := cbn [r_tcp r_setup r_ph r_active r_w r_queue r_ring r_rp r_wp r_wire r_con r_deliv r_hist r_lost upd_ctl upd_data upd_ring].
+Ltac prj := cbn [r_tcp r_setup r_ph r_active r_w r_queue r_ring r_rp r_wp r_wire r_con r_deliv r_hist r_lost r_rx r_resets upd_ctl upd_data upd_ring upd_rx].
 
 (* ---------- subsequences ---------- *)
 Inductive Subseq {A} : list A -> list A -> Prop :=
@@ -102,7 +102,7 @@ Theorem delivered_identical r d :
                d_pkt d = set_ssrc p0 s.
 Proof.
   intros Hr Hd. pose proof (reach_inv _ _ _ Hreach) as Hi. unfold sinv in Hi. rewrite Forall_forall in Hi.
-  destruct (Hi _ Hr) as [_ _ _ _ H4 _ _ _ _ _ _ _]. rewrite Forall_forall in H4.
+  destruct (Hi _ Hr) as [_ _ _ _ H4 _ _ _ _ _ _ _ _ _]. rewrite Forall_forall in H4.
   destruct (H4 _ Hd) as (p0 & fs & s & H1 & H2 & H3 & H5). exists p0, s. repeat split; auto.
   unfold ssrc_of. rewrite H2. now rewrite (find_fmt_nnth _ _ _ _ H3).
 Qed.
@@ -111,7 +111,7 @@ Qed.
 Theorem delivered_at_most_once r : In r (s_readers st) -> NoDup (didxs (r_deliv r)).
 Proof.
   intros Hr. pose proof (reach_inv _ _ _ Hreach) as Hi. unfold sinv in Hi. rewrite Forall_forall in Hi.
-  destruct (Hi _ Hr) as [_ _ _ _ _ _ _ _ _ H9 (_ & Hs) _].
+  destruct (Hi _ Hr) as [_ _ _ _ _ _ _ _ _ H9 (_ & Hs) _ _ _].
   apply (NoDup_count_occ N.eq_dec). intros n.
   pose proof (proj1 (NoDup_count_occ N.eq_dec _) (sinc_NoDup _ Hs) n) as Hn.
   specialize (H9 n). unfold cnt in H9. lia.
@@ -123,12 +123,12 @@ Theorem delivered_in_order_partial r m f :
   In r (s_readers st) -> sinc (didxs (filter (same_mf m f) (ordered_part r))).
 Proof.
   intros Hr. pose proof (reach_inv _ _ _ Hreach) as Hi. unfold sinv in Hi. rewrite Forall_forall in Hi.
-  destruct (Hi _ Hr) as [_ _ _ _ _ H5 _ _ _ _ _ _]. now apply inc_mf_sinc.
+  destruct (Hi _ Hr) as [_ _ _ _ _ H5 _ _ _ _ _ _ _ _]. now apply inc_mf_sinc.
 Qed.
 
 Lemma ordered_part_incl r d : In d (ordered_part r) -> In d (r_deliv r).
 Proof.
-  unfold ordered_part, nl_d. destruct (r_tcp r); [|auto]. intros H. apply filter_In in H. tauto.
+  unfold ordered_part, nl_d. intros H. apply filter_In in H. tauto.
 Qed.
 
 Theorem delivered_is_subsequence_partial r m f s :
@@ -170,7 +170,7 @@ Theorem announced_ssrc r d m s :
   In r (s_readers st) -> In d (r_deliv r) -> d_m d = m -> announce c m = Some s -> p_ssrc (d_pkt d) = s.
 Proof.
   intros Hr Hd Hm Ha. pose proof (reach_inv _ _ _ Hreach) as Hi. unfold sinv in Hi. rewrite Forall_forall in Hi.
-  destruct (Hi _ Hr) as [_ _ _ _ H4 _ _ _ _ _ _ _]. rewrite Forall_forall in H4.
+  destruct (Hi _ Hr) as [_ _ _ _ H4 _ _ _ _ _ _ _ _ _]. rewrite Forall_forall in H4.
   destruct (H4 _ Hd) as (p0 & fs & s' & H1 & H2 & H3 & H5). subst m.
   unfold announce in Ha. rewrite H2 in Ha. destruct fs as [|[pt0 s0] [|? ?]]; try discriminate.
   inversion Ha; subst s0. unfold find_fmt in H3. cbn [find_fmt_aux] in H3.
@@ -192,7 +192,7 @@ Theorem conservation r :
     (didxs (r_deliv r) ++ r_lost r ++ idxs (r_wire r) ++ idxs (r_queue r) ++ idxs (ritems (r_ring r))).
 Proof.
   intros Hr. pose proof (reach_inv _ _ _ Hreach) as Hi. unfold sinv in Hi. rewrite Forall_forall in Hi.
-  destruct (Hi _ Hr) as [_ _ _ _ _ _ _ _ _ H9 _ _].
+  destruct (Hi _ Hr) as [_ _ _ _ _ _ _ _ _ H9 _ _ _ _].
   apply (Permutation_count_occ N.eq_dec). intros n. specialize (H9 n). unfold cnt in H9.
   rewrite !count_occ_app. lia.
 Qed.
@@ -212,7 +212,7 @@ Theorem tcp_global_order_partial r :
   In r (s_readers st) -> r_tcp r = true -> sinc (didxs (nl_d (r_deliv r))).
 Proof.
   intros Hr Ht. pose proof (reach_inv _ _ _ Hreach) as Hi. unfold sinv in Hi. rewrite Forall_forall in Hi.
-  destruct (Hi _ Hr) as [_ _ _ _ _ _ H6 _ _ _ _ _]. specialize (H6 Ht). now apply sinc_drop_tail in H6.
+  destruct (Hi _ Hr) as [_ _ _ _ _ _ H6 _ _ _ _ _ _ _]. specialize (H6 Ht). now apply sinc_drop_tail in H6.
 Qed.
 
 (* once PLAY has completed (and until a stop is requested) the reader is active and has a writer *)
@@ -220,7 +220,7 @@ Theorem playing_is_active r :
   In r (s_readers st) -> r_ph r = PhPlaying -> r_active r = true /\ exists b, r_w r = WOpen b.
 Proof.
   intros Hr Hp. pose proof (reach_inv _ _ _ Hreach) as Hi. unfold sinv in Hi. rewrite Forall_forall in Hi.
-  destruct (Hi _ Hr) as [_ _ _ _ _ _ _ _ H8 _ _ _]. unfold ph_inv in H8. now rewrite Hp in H8.
+  destruct (Hi _ Hr) as [_ _ _ _ _ _ _ _ H8 _ _ _ _ _]. unfold ph_inv in H8. now rewrite Hp in H8.
 Qed.
 
 (* a writer that is closed but not yet dropped exists only while a stop is being processed *)
@@ -228,7 +228,7 @@ Theorem closed_writer_only_when_stopping r b :
   In r (s_readers st) -> r_w r = WClosed b -> r_ph r = PhStopReq.
 Proof.
   intros Hr Hw. pose proof (reach_inv _ _ _ Hreach) as Hi. unfold sinv in Hi. rewrite Forall_forall in Hi.
-  destruct (Hi _ Hr) as [_ _ _ _ _ _ _ _ H8 _ _ _]. unfold ph_inv in H8.
+  destruct (Hi _ Hr) as [_ _ _ _ _ _ _ _ H8 _ _ _ _ _]. unfold ph_inv in H8.
   destruct (r_ph r); auto; try (exfalso; now apply (H8 b)).
   destruct H8 as (_ & b' & H8). congruence.
 Qed.
@@ -313,7 +313,7 @@ Lemma ctl_effect c W kk r r' :
   (r_ph r <> PhStopReq -> clean r -> clean r').
 Proof.
   unfold is_discard, clean. intros Hi H.
-  pose proof Hi as [_ (_ & Hq) _ _ _ _ _ _ Hph _ _ _].
+  pose proof Hi as [_ (_ & Hq) _ _ _ _ _ _ Hph _ _ _ _ _].
   destruct kk; cbn [r_ctl] in H.
   - unfold r_playreq in H. destruct (r_ph r), (r_w r), (r_active r); try discriminate; inversion H; subst; prj;
       repeat split; auto; try discriminate; tauto.
@@ -354,7 +354,7 @@ Lemma push_effect c W m f idx p r :
   r_tcp r' = r_tcp r /\ r_setup r' = r_setup r /\ r_lost r' = r_lost r /\ r_ph r' = r_ph r /\
   (r_ph r <> PhStopReq -> clean r -> clean r').
 Proof.
-  intros Hi. pose proof Hi as [_ _ _ _ _ _ _ _ Hph _ _ _]. unfold clean.
+  intros Hi. pose proof Hi as [_ _ _ _ _ _ _ _ Hph _ _ _ _ _]. unfold clean.
   unfold r_push. destruct (r_active r); [|cbn; tauto].
   destruct (chan_of (r_setup r) m); [|cbn; tauto].
   destruct (r_w r) as [|b|b] eqn:Ew; [cbn; tauto| |].
@@ -369,10 +369,9 @@ Qed.
 Lemma arrive_effect c W i r r' d :
   rinv c W r -> r_arrive c i r = Some (r', d) ->
   r_tcp r' = r_tcp r /\ r_setup r' = r_setup r /\ r_ph r' = r_ph r /\
-  (r_tcp r = true -> r_lost r' = r_lost r /\ d <> None) /\
-  (clean r -> clean r').
+  (r_tcp r = true -> r_lost r' = r_lost r /\ d <> None /\ (clean r -> clean r')).
 Proof.
-  intros Hi H. pose proof Hi as [H1 _ _ H3 _ _ _ _ _ _ _ _]. unfold clean.
+  intros Hi H. pose proof Hi as [H1 _ _ H3 _ _ _ _ _ _ _ _ _ _]. unfold clean.
   unfold r_arrive in H. destruct (r_con r); cbn [negb] in H; [|discriminate].
   destruct (r_tcp r && negb (i =? 0)); [discriminate|].
   destruct (take_nth i (r_wire r)) as [[x wi]|] eqn:Et; [|discriminate].
@@ -383,14 +382,15 @@ Proof.
     split; [apply Forall_app; split; auto|auto]. }
   rewrite Ew in H3. apply Forall_app in H3. destruct H3 as (_ & H3b). inversion H3b as [|? ? Hx _]; subst.
   destruct (demux_ok _ _ _ _ H1 Hx) as (fs & s & D1 & D2 & D3 & _). rewrite D1, D2, D3 in H.
-  destruct (r_tcp r) eqn:Etcp; cbn [orb] in H.
+  destruct (r_tcp r) eqn:Etcp.
   - inversion H; subst; prj. repeat split; auto; try discriminate.
     + apply Hcl; tauto.
     + apply Forall_app; split; [tauto|]. constructor; [|constructor]. cbn [d_late]. apply Hcl; tauto.
     + tauto.
-  - destruct (newer (r_deliv r) (i_m x) (i_f x) (i_idx x)); inversion H; subst; prj; repeat split; auto; try discriminate;
-      try (apply Hcl; tauto); try tauto.
-    apply Forall_app; split; [tauto|]. constructor; [|constructor]. cbn [d_late]. apply Hcl; tauto.
+  - destruct (rx_get (r_rx r) (i_m x) (i_f x)) as [[last neg]|].
+    + destruct (last <? i_idx x); [inversion H; subst; prj; repeat split; auto; discriminate|].
+      destruct (c_B c <? neg + 1); inversion H; subst; prj; repeat split; auto; discriminate.
+    + inversion H; subst; prj; repeat split; auto; discriminate.
 Qed.
 
 Lemma lose_effect i r r' :
@@ -415,7 +415,7 @@ Proof.
     destruct (ctl_effect _ _ _ _ _ Hr Hc) as (_ & _ & [Hl|(Hp & Hd)] & _); [now left|right; eauto].
   - left. unfold sinv in Hi. pose proof (Forall_nnth _ _ _ _ Hi Hk) as Hr. now apply (push_effect _ _ m f _ _ _ Hr).
   - left. unfold sinv in Hi. pose proof (Forall_nnth _ _ _ _ Hi Hk) as Hr.
-    destruct (arrive_effect _ _ _ _ _ _ Hr Hc) as (_ & _ & _ & Hl & _). now apply Hl.
+    destruct (arrive_effect _ _ _ _ _ _ Hr Hc) as (_ & _ & _ & Hl). now apply Hl.
   - apply lose_effect in Hc. destruct Hc as (Hc & _). congruence.
 Qed.
 
@@ -472,7 +472,7 @@ Proof.
         + now apply H5.
       - destruct (push_effect c _ m f (nlen (s_written st)) (set_ssrc p ss) r Hr) as (H1 & H2 & H3 & H4 & H5).
         repeat split; try congruence; now apply H5.
-      - destruct (arrive_effect _ _ _ _ _ _ Hr Hc) as (H1 & H2 & H3 & H4 & H5). destruct (H4 Ht) as (H6 & _).
+      - destruct (arrive_effect _ _ _ _ _ _ Hr Hc) as (H1 & H2 & H3 & H4). destruct (H4 Ht) as (H6 & _ & H5).
         repeat split; try congruence; now apply H5.
       - apply lose_effect in Hc. destruct Hc as (Hc & _). congruence. }
     destruct Hstep as (G1 & G2 & G3 & G4 & G5).
@@ -530,12 +530,75 @@ Proof.
   cbn [idxs map app] in HP. now rewrite app_nil_r in HP.
 Qed.
 
+(* ---------- UDP ---------- *)
+(* a UDP reader whose receiver never reset its position has received everything in order *)
+Theorem udp_in_order_until_reset c rs st r m f :
+  reach c rs st -> In r (s_readers st) -> r_tcp r = false -> r_resets r = 0 ->
+  sinc (didxs (filter (same_mf m f) (r_deliv r))).
+Proof.
+  intros Hre Hr Ht Hz. pose proof (delivered_in_order_partial _ _ _ Hre r m f Hr) as H.
+  pose proof (reach_inv _ _ _ Hre) as Hi. unfold sinv in Hi. rewrite Forall_forall in Hi.
+  destruct (Hi _ Hr) as [_ _ _ _ _ _ _ _ _ _ _ _ H12 _].
+  unfold ordered_part in H. now rewrite (nl_d_clean _ (H12 Ht Hz)) in H.
+Qed.
+
+(* the receiver resets its position only on an arrival that follows at least B consecutive arrivals
+   older than the last delivered packet of that format (B = the size of its reorder buffer) *)
+Theorem udp_reset_needs_late_run c st s st' k r r' :
+  step c st s = Some st' -> nnth k (s_readers st) = Some r -> nnth k (s_readers st') = Some r' ->
+  r_resets r' <> r_resets r ->
+  exists i o m f last neg, s = SArrive k i o /\ r_tcp r = false /\
+    rx_get (r_rx r) m f = Some (last, neg) /\ c_B c <= neg.
+Proof.
+  intros H Hk Hk' Hne. destruct (step_reader _ _ _ _ _ _ H Hk) as (r1 & Hr1 & Hc).
+  rewrite Hk' in Hr1. inversion Hr1; subst r1.
+  destruct Hc as [(-> & _)|[(kk & -> & Hc)|[(m & p & full & f & ss & fs & -> & _ & _ & -> & _)|[(i & o & d & -> & Hc)|(i & -> & Hc)]]]].
+  - congruence.
+  - exfalso. apply Hne. destruct kk; cbn [r_ctl] in Hc.
+    + unfold r_playreq in Hc. destruct (r_ph r), (r_w r), (r_active r); try discriminate; now inversion Hc.
+    + unfold r_create in Hc. destruct (r_ph r), (r_w r); try discriminate; now inversion Hc.
+    + unfold r_activate in Hc. destruct (r_ph r), (r_w r) as [|b|b]; try discriminate.
+      destruct (r_tcp r || b); [|discriminate]. now inversion Hc.
+    + unfold r_start in Hc. destruct (r_w r) as [|[|]|]; try discriminate; now inversion Hc.
+    + unfold r_playdone in Hc. destruct (r_ph r), (r_w r) as [|b|b]; try discriminate.
+      destruct (r_active r); [|discriminate]. now inversion Hc.
+    + unfold r_stopreq in Hc. destruct (r_ph r); try discriminate; now inversion Hc.
+    + unfold r_drain in Hc. destruct (r_w r) as [|[|]|[|]]; try discriminate.
+      * destruct (r_queue r); [discriminate|]. now inversion Hc.
+      * destruct (nnth (r_rp r) (r_ring r)) as [[x|]|]; try discriminate. now inversion Hc.
+    + unfold r_closew in Hc. destruct (r_ph r), (r_w r); try discriminate; now inversion Hc.
+    + unfold r_nilw in Hc. destruct (r_ph r), (r_w r); try discriminate; now inversion Hc.
+    + unfold r_deact in Hc. destruct (r_ph r); try discriminate; now inversion Hc.
+    + unfold r_stopdone in Hc. destruct (r_ph r), (r_w r); try discriminate.
+      destruct (r_active r); [discriminate|].
+      destruct (r_tcp r); [destruct (r_wire r); [|discriminate]|]; now inversion Hc.
+    + unfold r_cclose in Hc. destruct (r_ph r); try discriminate; now inversion Hc.
+  - exfalso. apply Hne. unfold r_push. destruct (r_active r); [|reflexivity].
+    destruct (chan_of (r_setup r) m); [|reflexivity].
+    destruct (r_w r); [reflexivity| |].
+    + destruct (nlen (r_queue r) <? c_Q c); reflexivity.
+    + destruct (nnth (r_wp r) (r_ring r)) as [[y|]|]; reflexivity.
+  - unfold r_arrive in Hc. destruct (r_con r); cbn [negb] in Hc; [|discriminate].
+    destruct (r_tcp r && negb (i =? 0)); [discriminate|].
+    destruct (take_nth i (r_wire r)) as [[x wi]|]; [|discriminate].
+    destruct (media_of (r_setup r) (i_chan x)) as [m|]; [|inversion Hc; subst; exfalso; now apply Hne].
+    destruct (nnth m (c_medias c)) as [fs|]; [|inversion Hc; subst; exfalso; now apply Hne].
+    destruct (find_fmt fs (p_pt (i_pkt x))) as [[f ss]|]; [|inversion Hc; subst; exfalso; now apply Hne].
+    destruct (r_tcp r) eqn:Et; [inversion Hc; subst; exfalso; now apply Hne|].
+    destruct (rx_get (r_rx r) m f) as [[last neg]|] eqn:Eg; [|inversion Hc; subst; exfalso; now apply Hne].
+    destruct (last <? i_idx x); [inversion Hc; subst; exfalso; now apply Hne|].
+    destruct (N.ltb_spec (c_B c) (neg + 1)); [|inversion Hc; subst; exfalso; now apply Hne].
+    exists i, o, m, f, last, neg. repeat split; auto. lia.
+  - exfalso. apply Hne. unfold r_lose in Hc. destruct (r_tcp r); [discriminate|].
+    destruct (take_nth i (r_wire r)) as [[x wi]|]; [|discriminate]. now inversion Hc.
+Qed.
+
 (* ---------- the order property is FALSE of the faithful model ---------- *)
 (* capacity 4, one media with one format, one TCP reader.  Two packets are queued (the consumer has not
    run yet) when PAUSE arrives; Close() clears the slots but keeps the indices two apart; four more
    packets are pushed before writer = nil; the still-running consumer executes them starting at the stale
    read index: 4, 5, 2, 3. *)
-Definition rf_cfg := mkCfg 4 [[(96, 7)]].
+Definition rf_cfg := mkCfg 4 64 [[(96, 7)]].
 Definition rf_rs := [new_reader true [(0, 0)]].
 Definition rf_p (seq : N) := mkP seq 0 false 96 0 [seq].
 Definition rf_steps :=
